@@ -124,7 +124,10 @@ class Check:
 class _Worker:
     def __init__(self, module, env):
         e = dict(os.environ)
-        e.update({"PYTHONHASHSEED": "0", "PYTHONPATH": VERIF, "RINDPHI_ISLA_VERIF": "1"})
+        # the implementation is imported from /repo (the editable install of /venv); VERIF_REPO=<other checkout> is only
+        # used by tools/try_seed.py to run a check against a patched scratch copy without touching /repo
+        e.update({"PYTHONHASHSEED": "0", "PYTHONPATH": VERIF + ("" if REPO == "/repo" else ":" + os.path.join(REPO, "src")),
+                  "RINDPHI_ISLA_VERIF": "1"})
         e.update(env or {})
         opt = ["-O"] if e.get("VERIF_PY_O") == "1" else []      # assertions of the implementation switched off
         self.p = subprocess.Popen([PY, "-u"] + opt + ["-m", "harness.worker", module], cwd=VERIF, env=e,
